@@ -84,12 +84,13 @@ RandArgs(u) ==
 
 \* (the argument only defeats TLC's caching of constant definitions)
 RandScenario(u) ==
-  LET nd == Pick({0, 1, 1, 2, 2, 3, 3, 4, 5}) IN
+  LET nd == Pick(0..5) IN
   [args |-> RandArgs(u),
-   query |-> Pick({"ok", "ok", "ok", "ok", "ok", "ok", "ok", "ok", "ok", "ok", "ok", "parse", "compile"}),
+   query |-> (LET q == Pick(1..14) IN IF q = 1 THEN "parse" ELSE IF q = 2 THEN "compile" ELSE "ok"),
    docs |-> [i \in 1..nd |-> RandRun(4)],
    bad |-> Pick(1..4) = 1,
-   one |-> RandRun(6)]
+   onull |-> RandRun(6),
+   oslurp |-> RandRun(6)]
 
 \* ---- samples of the model-checked universe ---------------------------------
 SampleA(u) == LET fl == Pick(FlagSeqs)  ind == Pick(IndentChoices) IN
@@ -115,7 +116,7 @@ OutAll == [i \in 1..1 |-> [fam |-> "F", scs |-> SetToSeq(FamilyF)]]
 
 \* the work is done while TLC computes the single initial state (the machine's variables are parked)
 VARIABLE done
-Parked == [args |-> <<Pos>>, query |-> "ok", docs |-> <<>>, bad |-> FALSE, one |-> <<>>]
+Parked == [args |-> <<Pos>>, query |-> "ok", docs |-> <<>>, bad |-> FALSE, onull |-> <<>>, oslurp |-> <<>>]
 GenInit == /\ done = ndJsonSerialize(IOEnv.VERIF_OUT, IF IOEnv.VERIF_MODE = "all" THEN OutAll ELSE OutSample)
            /\ InitWith(Parked)
 GenNext == UNCHANGED <<done, vars>>
